@@ -231,4 +231,6 @@ Definition wf_b (docs : list (string * val)) : bool :=
   && events_ok [] docs
   && nodup_atoms (map fst (datum_frames docs))
   && nodup_atoms (map (fun t => snd t) (expected_refs docs))
-  && negb (existsb (fun u => existsb (atom_eqb u) (passthrough_uids docs)) (map (fun t => snd t) (expected_refs docs))).
+  && negb (existsb (fun u => existsb (atom_eqb u) (passthrough_uids docs)) (map (fun t => snd t) (expected_refs docs)))
+  && forallb is_atom (passthrough_uids docs)
+  && forallb is_atom (map (fun e => get_or "uid" e VNone) (expand_events docs)).
